@@ -282,6 +282,49 @@ def _convert_returns(stmts, mk):
     return out
 
 
+def _wrap_returns(body, mk):
+    for s_ in body:
+        for n in [s_] + list(_walk_own_stmt(s_)):
+            if isinstance(n, (ast.For, ast.AsyncFor, ast.While)) and _contains_return([n]):
+                raise NotInlinable("return inside a loop of the helper")
+
+    class R(ast.NodeTransformer):
+        def visit_FunctionDef(self, n):
+            return n
+        visit_AsyncFunctionDef = visit_FunctionDef
+        visit_Lambda = visit_FunctionDef
+
+        def visit_Return(self, n):
+            return mk(n.value, n) + [ast.copy_location(ast.Break(), n)]
+
+    new_body = []
+    for s_ in body:
+        r = R().visit(s_)
+        new_body.extend(r if isinstance(r, list) else [r])
+    # flatten lists produced inside nested blocks
+    def fix(block):
+        out = []
+        for x in block:
+            if isinstance(x, list):
+                out.extend(fix(x))
+            else:
+                for fld in ("body", "orelse", "finalbody"):
+                    b = getattr(x, fld, None)
+                    if isinstance(b, list):
+                        setattr(x, fld, fix(b))
+                for h in getattr(x, "handlers", []) or []:
+                    h.body = fix(h.body)
+                out.append(x)
+        return out
+    new_body = fix(new_body)
+    new_body.append(ast.Break())
+    loop = ast.While(test=ast.Constant(value=True), body=new_body, orelse=[])
+    if body:
+        ast.copy_location(loop, body[0])
+        ast.copy_location(new_body[-1], body[-1])
+    return [loop]
+
+
 def _lock_wrapper(repo, module, deco_name) -> Optional[str]:
     """If `deco_name` names a repo function of the shape
          def d(fn): def w(self, *a, **k): with self.<lock>: return fn(self, *a, **k); return w
@@ -525,7 +568,12 @@ class Inliner:
                     return [ast.copy_location(ast.Expr(value=value), at)]
                 return []
             falls = not _always_returns(body)
-            out = _convert_returns(body, mk)
+            try:
+                out = _convert_returns(copy.deepcopy(body), mk)
+            except NotInlinable:
+                # returns that sit inside a try / with (not in a loop): the body goes into a one-trip loop and
+                # every `return E` becomes `<target> = E; break` (a `finally` still runs, as it does for return)
+                out = _wrap_returns(body, mk)
             if mode == "assign" and falls:
                 init = ast.copy_location(ast.Assign(targets=[copy.deepcopy(target)], value=ast.Constant(value=None)), call)
                 out = [init] + out
